@@ -48,7 +48,13 @@ KINDS = ['assign', 'echo', 'print', 'none', 'str', 'both', 'for', 'def', 'raise'
          'echolist', 'echodict', 'echobytes', 'echonone', 'class', 'mlecho', 'raise_called', 'whileecho', 'printml', 'ell_ml',
          'both_falsy', 'echo_falsy', 'print_then_falsy_semi', 'raise_syntax_eval', 'raise_syntax_exec', 'raise_indent_exec',
          'raise_syntax_compile', 'raise_chained', 'raise_multiline_msg', 'printblank2', 'printblank_only', 'printblank3_echo',
-         'readprev', 'readprev']
+         'readprev', 'readprev', 'ied_dotted']
+# exceptions whose class lives two or more modules deep: under IGNORE_EXCEPTION_DETAIL the standard module compares what follows
+# the *last* dot before the first colon, so the want may spell the name bare, through an alias package or in full
+DOTTED_RAISERS = ["__import__('json').loads({} or '{{')",
+                  "__import__('xml.etree.ElementTree').etree.ElementTree.fromstring({} or '<a>')",
+                  "__import__('importlib.metadata').metadata.version({} or 'no_such_pkg_zz')",
+                  "(_ for _ in ()).throw(__import__('urllib.error').error.URLError({} or 'why'))"]
 FALSY = ['0', '0.0', 'False', "''", '[]', '{}', '()', "b''", '0j']
 
 
@@ -136,6 +142,8 @@ def example_source(k, c):
         src = ["print('a   b    c', {})  # doctest: +NORMALIZE_WHITESPACE".format(t)]
     elif c == 'ied':
         src = ["int({} or 'q{}')  # doctest: +IGNORE_EXCEPTION_DETAIL".format(t, k)]
+    elif c == 'ied_dotted':
+        src = [DOTTED_RAISERS[k % len(DOTTED_RAISERS)].format(t) + '  # doctest: +IGNORE_EXCEPTION_DETAIL']
     elif c == 'str':
         src = ["({} or 'a{}') + \"b'\"".format(t, k)]
     elif c == 'echolist':
@@ -251,6 +259,11 @@ def text_strategy(D, max_examples=8):
             msg = got[1].rstrip('\n')
             if c == 'ied':
                 msg = msg.split(':')[0] + ': different detail'
+            if c == 'ied_dotted':
+                full = msg.split('\n')[0].split(':')[0]
+                comps = full.split('.')
+                name = D.choice([full, comps[-1], comps[-1], comps[0] + '.' + comps[-1], '.'.join(comps[1:])])
+                msg = name + D.choice([': different detail', ': other: detail', ''])
             stack = [[], ['    ...'], ['  File "<stdin>", line 1, in <module>', '    ...']][sc]
             w = ['Traceback (most recent call last):'] + stack + msg.split('\n')
         else:
